@@ -4,9 +4,12 @@ package props
 
 import (
 	"bytes"
+	"crypto/rand"
 	"encoding/json"
+	"errors"
 	"fmt"
 	"hash/fnv"
+	"io"
 	"math/big"
 	"os"
 	"os/exec"
@@ -17,6 +20,7 @@ import (
 	"strconv"
 	"strings"
 	"sync"
+	"sync/atomic"
 	"time"
 
 	"github.com/bytemare/secp256k1"
@@ -54,6 +58,13 @@ func init() {
 		n, _ := strconv.Atoi(a[1])
 
 		return C16RandStorm(g, n, a[2])
+	}
+
+	Commands["faultstorm"] = func(a []string) int {
+		g, _ := strconv.Atoi(a[0])
+		n, _ := strconv.Atoi(a[1])
+
+		return C16FaultStorm(g, n, a[2])
 	}
 
 	register(&mon.Prop{
@@ -103,10 +114,14 @@ func c16BuildShared(seed uint64) *c16Shared {
 	}
 
 	sh.elems = append(sh.elems, mon.Elem(oracle.Inf(), gen.Repr{Kind: "id-y", L: big.NewInt(5)}), mon.Elem(oracle.G(), gen.Repr{Kind: "scaled", L: big.NewInt(77)}))
+	// zero values of the types, never passed through a constructor (what `var e secp256k1.Element` gives a caller)
+	sh.elems = append(sh.elems, new(secp256k1.Element), new(secp256k1.Element))
 
 	for _, v := range []*big.Int{big.NewInt(0), big.NewInt(1), big.NewInt(2), new(big.Int).Sub(oracle.N, big.NewInt(1)), gen.Draw(r, oracle.N).X, gen.Draw(r, oracle.N).X, new(big.Int).Lsh(big.NewInt(1), 255)} {
 		sh.scalars = append(sh.scalars, mon.Scal(v))
 	}
+
+	sh.scalars = append(sh.scalars, new(secp256k1.Scalar))
 
 	for i, lay := range h2cLayouts {
 		m, _ := layoutSlice(r.Bytes([]int{0, 3, 64, 100, 200}[i%5]), lay, 0x11)
@@ -742,6 +757,120 @@ func C16RandStorm(goroutines, calls int, out string) int {
 	return 0
 }
 
+// c16FaultyReader serves the real entropy source but fails the reads whose ordinal is in failAt.
+type c16FaultyReader struct {
+	under  io.Reader
+	n      atomic.Int64
+	failed atomic.Int64
+	failAt map[int64]bool
+}
+
+func (f *c16FaultyReader) Read(p []byte) (int, error) {
+	if f.failAt[f.n.Add(1)] {
+		f.failed.Add(1)
+		return 0, errors.New("injected entropy fault (transient)")
+	}
+
+	return f.under.Read(p)
+}
+
+// C16FaultStorm: while many goroutines draw random scalars, a few single reads of the entropy source fail (a transient
+// fault hitting one call in one goroutine). That call may fail; every other call, in every goroutine, before and after,
+// would succeed if run alone and therefore must succeed here: the number of failing calls cannot exceed the number of
+// failed reads, and once the faults are over no call fails.
+func C16FaultStorm(goroutines, calls int, out string) int {
+	total := int64(goroutines * calls)
+	fr := &c16FaultyReader{under: rand.Reader, failAt: map[int64]bool{total / 5: true, total / 2: true, total/2 + 1: true}}
+	old := rand.Reader
+	rand.Reader = fr
+
+	failures := make([]int, goroutines)
+	first := make([]string, goroutines)
+	late := make([]string, goroutines)
+	line := mon.StartLine(goroutines)
+
+	var wg sync.WaitGroup
+
+	for g := 0; g < goroutines; g++ {
+		wg.Add(1)
+
+		go func(g int) {
+			defer wg.Done()
+			line()
+
+			s := secp256k1.NewScalar()
+
+			for i := 0; i < calls; i++ {
+				if pan, pv := mon.Call(func() { s.Random() }); pan {
+					failures[g]++
+
+					if first[g] == "" {
+						first[g] = fmt.Sprint(pv)
+					}
+				}
+			}
+		}(g)
+	}
+
+	wg.Wait()
+
+	// the faults are over (every failing ordinal is behind us): a second wave must be entirely clean
+	for g := 0; g < goroutines; g++ {
+		wg.Add(1)
+
+		go func(g int) {
+			defer wg.Done()
+
+			s := secp256k1.NewScalar()
+
+			for i := 0; i < 50; i++ {
+				if pan, pv := mon.Call(func() { s.Random() }); pan && late[g] == "" {
+					late[g] = fmt.Sprint(pv)
+				}
+			}
+		}(g)
+	}
+
+	wg.Wait()
+
+	rand.Reader = old
+
+	res := &c16ChildResult{Goroutines: goroutines, Iters: calls, GOMAXPROCS: runtime.GOMAXPROCS(0), Calls: total + int64(goroutines*50),
+		PerFn: map[string]int64{"Scalar.Random(fault storm)": total + int64(goroutines*50), "entropy-reads-failed-by-injection": fr.failed.Load()}}
+
+	nfail, example := 0, ""
+
+	for g := range failures {
+		nfail += failures[g]
+
+		if example == "" {
+			example = first[g]
+		}
+	}
+
+	res.PerFn["Random calls that failed during the fault storm"] = int64(nfail)
+
+	if int64(nfail) > fr.failed.Load() {
+		res.Mismatches = append(res.Mismatches, fmt.Sprintf("%d concurrent Random calls failed although only %d reads of the entropy source failed: calls that would succeed alone fail because of another call's fault (e.g. %s)", nfail, fr.failed.Load(), mon.Trunc(example, 200)))
+	}
+
+	for g := range late {
+		if late[g] != "" {
+			res.Mismatches = append(res.Mismatches, fmt.Sprintf("Random fails in goroutine %d after the entropy faults are over (a past failure of some call is remembered process-wide): %s", g, mon.Trunc(late[g], 200)))
+			break
+		}
+	}
+
+	res.Done = true
+	b, _ := json.Marshal(res)
+
+	if err := os.WriteFile(out, b, 0o644); err != nil {
+		return 3
+	}
+
+	return 0
+}
+
 // C16HashStorm: many goroutines hash at the same time with SHARED message / DST slices (short and several different
 // oversize DSTs); every result is compared with the oracle's value computed beforehand.
 func C16HashStorm(goroutines, calls int, out string) int {
@@ -966,6 +1095,7 @@ func c16Parent(p *mon.Prop, pc *mon.ParentCtx) *mon.Aggregate {
 		concFirst       bool
 		storm           bool
 		hash            bool
+		fault           bool
 	}
 
 	var cfgs []cfg
@@ -990,6 +1120,8 @@ func c16Parent(p *mon.Prop, pc *mon.ParentCtx) *mon.Aggregate {
 
 	cfgs = append(cfgs, cfg{g: 16, procs: 16, iters: stormCalls, storm: true})
 	cfgs = append(cfgs, cfg{g: 16, procs: 16, iters: stormCalls / 30, hash: true}, cfg{g: 48, procs: 16, iters: stormCalls / 60, hash: true})
+
+	cfgs = append(cfgs, cfg{g: 16, procs: 16, iters: stormCalls / 20, fault: true}, cfg{g: 4, procs: 2, iters: stormCalls / 20, fault: true})
 
 	type outcome struct {
 		c     cfg
@@ -1026,6 +1158,10 @@ func c16Parent(p *mon.Prop, pc *mon.ParentCtx) *mon.Aggregate {
 				args = []string{"hashstorm", fmt.Sprint(cf.g), fmt.Sprint(cf.iters), out}
 			}
 
+			if cf.fault {
+				args = []string{"faultstorm", fmt.Sprint(cf.g), fmt.Sprint(cf.iters), out}
+			}
+
 			logp, err, timed := runChild(
 				args,
 				[]string{"GORACE=halt_on_error=0 log_path=" + race, fmt.Sprintf("GOMAXPROCS=%d", cf.procs)},
@@ -1051,7 +1187,7 @@ func c16Parent(p *mon.Prop, pc *mon.ParentCtx) *mon.Aggregate {
 	var configs []string
 
 	for i, o := range outs {
-		configs = append(configs, fmt.Sprintf("G=%d,GOMAXPROCS=%d,iters=%d,seed=%d,concurrent-first=%v,random-storm=%v,hash-storm=%v", o.c.g, o.c.procs, o.c.iters, o.seed, o.c.concFirst, o.c.storm, o.c.hash))
+		configs = append(configs, fmt.Sprintf("G=%d,GOMAXPROCS=%d,iters=%d,seed=%d,concurrent-first=%v,random-storm=%v,hash-storm=%v,fault-storm=%v", o.c.g, o.c.procs, o.c.iters, o.seed, o.c.concFirst, o.c.storm, o.c.hash, o.c.fault))
 
 		if o.timed {
 			agg.Incon("race workload %d: watchdog fired", i)
